@@ -9,6 +9,7 @@ import (
 	"bufio"
 	"bytes"
 	"context"
+	"crypto/sha256"
 	"encoding/binary"
 	"encoding/hex"
 	"errors"
@@ -385,4 +386,18 @@ func VerifSELFSelect() {
 	}
 	nd.Assert("self.select.ctx-done", cancelled == (k == 3))
 	cancel()
+}
+
+// crypto/sha256 as used by the engine (New / Write / Sum, Sum256): real digests
+// on concrete input, consistent between the two entry points.
+func VerifSELFSha256() {
+	h := sha256.New()
+	h.Write([]byte("ab"))
+	h.Write([]byte("c"))
+	sum := h.Sum(nil)
+	one := sha256.Sum256([]byte("abc"))
+	nd.Reach("self.sha256.done")
+	nd.Observe(hex.EncodeToString(sum))
+	nd.Assert("self.sha256.known-value", hex.EncodeToString(sum) == "ba7816bf8f01cfea414140de5dae2223b00361a396177a9cb410ff61f20015ad")
+	nd.Assert("self.sha256.entry-points-agree", bytes.Equal(sum, one[:]) && h.Size() == 32)
 }
